@@ -3,7 +3,7 @@
 (* Evaluates the SQLi specification on the inputs of a file and prints the *)
 (* results (used for the specification's own check against the upstream    *)
 (* fixtures and for replay files).  One state per input line:              *)
-(*    {"in":[..], "what":"tokens"|"fold"|"check", "flags":9}               *)
+(*    {"in":[..], "what":"tokens"|"fold"|"pass"|"fps"|"check", "flags":9}               *)
 (***************************************************************************)
 EXTENDS SqliOps, TLC, Json, IOUtils
 
@@ -29,6 +29,8 @@ Result(e) ==
          [i |-> i, fp |-> p.fp, black |-> p.black, white |-> p.white, verdict |-> p.verdict,
           ddx |-> p.ddx, hash |-> p.hash, ntok |-> p.ntok, folds |-> p.folds,
           toks |-> [k \in 1..Len(p.fp) |-> TokJ(p.vec[k])]]
+    [] e.what = "fps" ->        \* the fingerprint of the input under each of the six parsing contexts (C08)
+         [i |-> i, fps |-> [k \in 1..6 |-> Pass(e.in, <<9, 17, 10, 18, 12, 20>>[k]).fp]]
     [] e.what = "check" ->
          LET c == Check(e.in) IN [i |-> i, sqli |-> c.sqli, fp |-> c.fp, passes |-> c.passes]
 
